@@ -137,6 +137,8 @@ type Layout struct {
 	ImportComment  string // comment line between imports
 	ModsOwnLine    bool // modifiers on the line before the type
 	BeforeParen    string // text between a declared method's name and its parameter list ("", " ", " /* c */ ")
+	Leading        string // white space in front of everything ("\n\n", "   \n", "  ")
+	CloseJoined    bool   // the closing brace of the class follows the last member on its line
 }
 
 func DefaultLayout() Layout { return Layout{Indent: "    ", BlankAfterPkg: 1} }
@@ -172,6 +174,7 @@ func Print(c *Class, l Layout) string {
 	if l.Indent == "" && !l.JoinMembers {
 		// an empty indent is legal; nothing to do
 	}
+	p.w(l.Leading)
 	if c.HeaderComment != "" {
 		p.w(c.HeaderComment)
 		p.nl()
@@ -255,6 +258,8 @@ func Print(c *Class, l Layout) string {
 		}
 		if l.JoinMembers && i+1 < len(c.Members) {
 			atLineStart = false
+		} else if l.CloseJoined && i+1 == len(c.Members) {
+			p.w(" ")
 		} else {
 			p.nl()
 			atLineStart = true
